@@ -14,9 +14,9 @@ from tvf.env import Check, fmt_exc
 from tvf.records import coherent_rows
 
 FACTORS = dict(
-    target=["gauss2", "bimodal", "expface", "vonmises", "expface_refl", "support", "support-sparse", "mixedbc"],
+    target=["gauss2", "bimodal", "expface", "vonmises", "expface_refl", "support", "support-sparse", "mixedbc", "tailprior"],
     kernel=["tpcn", "rwm"], resample=["mult", "syst"], clustering=[False, True],
-    mode=["vec", "scalar", "blobs", "blobs2"], metric=["ess", "vol"], N=[32, 64], cluster_every=[1, 2],
+    mode=["vec", "scalar", "blobs", "blobs2", "blobs3"], metric=["ess", "vol"], N=[32, 64], cluster_every=[1, 2],
 )
 
 
@@ -48,7 +48,7 @@ def traced(cfg):
     s, t, like, pt = runs.build(c)
     bad = []
     cnt = dict(rows=0, boundaries=0)
-    have_blobs = c["mode"] in ("blobs", "blobs2")
+    have_blobs = c["mode"] in ("blobs", "blobs2", "blobs3")
 
     def check_current(where, sm, need_all=True):
         cur = sm.get_current()
@@ -155,8 +155,12 @@ def run():
     # dedicated workload for the replacement of zero-likelihood prior draws: sparse support x blobs x several seeds
     for j in range(ck.pick(12, 60)):
         row = dict(target="support-sparse", kernel=["tpcn", "rwm"][j % 2], resample=["mult", "syst"][(j // 2) % 2], clustering=bool((j // 4) % 2),
-                   mode=["blobs", "blobs2", "scalar"][j % 3], metric="ess", N=24, cluster_every=1)
+                   mode=["blobs", "blobs2", "blobs3", "scalar"][j % 4], metric="ess", N=24, cluster_every=1)
         tasks.append(("tvf.checks.c07:traced", dict(cfg=dict(to_cfg(row, ck.subseed("sparse", j)), ess_ratio=3.0)), None))
+    for j in range(ck.pick(4, 16)):
+        row = dict(target="tailprior", kernel=["tpcn", "rwm"][j % 2], resample=["mult", "syst"][(j // 2) % 2], clustering=False,
+                   mode=["vec", "scalar", "blobs", "blobs3"][j % 4], metric="ess", N=48, cluster_every=1)
+        tasks.append(("tvf.checks.c07:traced", dict(cfg=to_cfg(row, ck.subseed("tail", j))), None))
     for i, st, val in farm.run(tasks, timeout=900, progress="C07"):
         cfg = tasks[i][1]["cfg"]
         if st == "timeout":
